@@ -216,6 +216,16 @@ Theorem C06_programs :
 Proof. exact programs_spec. Qed.
 Print Assumptions C06_programs.
 
+(* pickle / copy / deepcopy: the restored handle is the handle, hence every read through it is the read through
+   the original (the thrift round trip deser (ser l) = Some l is C10's theorem, a hypothesis here) *)
+Theorem C06_pickle :
+  forall (D Name B : Type) (ser : list D -> B) (deser : B -> option (list D)),
+    (forall l, deser (ser l) = Some l) ->
+    forall (h : handle D Name) (op : hop), op = HPickle \/ op = HCopy \/ op = HDeepcopy ->
+    apply_hop ser deser h op = Ok h.
+Proof. exact copies_id. Qed.
+Print Assumptions C06_pickle.
+
 (* non-vacuity: a concrete dataset (row groups of 3, 0, 1 and 2 rows, one partition column), the program
    pf[::-1][1:] -> pickle -> iter_row_groups(columns=[c2, c1]) and head(4) of pf[-3:], computed by the model *)
 Example C06_nonvacuous :
